@@ -242,7 +242,7 @@ var $internalize = (v, t, recv, seen, makeWrapper) => {
             if (v.length !== t.len) {
                 $throwRuntimeError("got array with wrong size from JavaScript native");
             }
-            return $mapArray(v, e => { return $internalize(e, t.elem, makeWrapper); });
+            return $toNativeArray(t.elem.kind, $mapArray(v, e => { return $internalize(e, t.elem, makeWrapper); }));
         case $kindFunc:
             return function () {
                 var args = [];
